@@ -183,6 +183,10 @@ def run_gen_coords(sysdef, chooser, workdir=None, **opts):
         if inp:
             write_gro(d / "in.gro", inp["atoms"], inp["coords"], inp["box"])
             kwargs["coordpath" if inp["kind"] == "c" else "coordpath_meta"] = d / "in.gro"
+        inp2 = sysdef.get("input_mc")      # a second structure with residue centres, next to an atom-level 'input'
+        if inp2:
+            write_gro(d / "in_mc.gro", inp2["atoms"], inp2["coords"], inp2["box"])
+            kwargs["coordpath_meta"] = d / "in_mc.gro"
         kwargs.update(sysdef.get("kwargs", {}))
         kwargs.update(opts.pop("kwargs", {}))
         events = []
